@@ -86,6 +86,20 @@ Proof.
   - specialize (H1 j q Hj Hl). inversion H1; subst j. rewrite Nat.eqb_refl in E. discriminate.
 Qed.
 
+(* fixed wrapper: the lock holder finds the source terminating, unlocks and returns without calling the handler *)
+Lemma Mc_T6 : forall P hh ha ov k b ok p',
+  nth_error P k = Some (ILocked b ok) -> locked p' = false ->
+  Mc P hh ha ov -> Mc (upd P k (fun _ => p')) None ha ov.
+Proof.
+  intros P hh ha ov k b ok p' Hk Hp' (H1 & H2 & H3).
+  assert (Hh : hh = Some k) by (apply (H1 k _ Hk); reflexivity).
+  assert (Ha : ha = 0) by (rewrite H2, Hh; unfold hcount; rewrite Hk; reflexivity).
+  clear H2. rewrite Ha. rewrite Hh in *. clear Ha Hh. repeat split; auto.
+  intros j q Hj Hl. rewrite nth_upd in Hj. destruct (Nat.eqb j k) eqn:E.
+  - rewrite Hk in Hj. simpl in Hj. inversion Hj; subst q. congruence.
+  - specialize (H1 j q Hj Hl). inversion H1; subst j. rewrite Nat.eqb_refl in E. discriminate.
+Qed.
+
 Lemma Mc_T5 : forall P hh ha ov, Mc P hh ha ov -> Mc (P ++ [INew]) hh ha ov.
 Proof.
   intros P hh ha ov (H1 & H2 & H3). repeat split; auto.
@@ -116,6 +130,10 @@ Proof.
   intros. unfold M, Mc, init, pcs; simpl. repeat split; auto.
   intros k p H. destruct k; discriminate.
 Qed.
+
+Section Fx.
+Variable fx : bool.   (* with (true) or without (false) the test of the terminating channel in the handler wrapper *)
+Local Notation step := (Mx.step fx).
 
 Lemma M_step : forall s t, M s -> M (step s t).
 Proof.
@@ -154,9 +172,11 @@ Proof.
       unfold M, pcs in *; simpl. rewrite Eh in H.
       rewrite (map_upd _ _ i_pc (inners s) k _ (fun _ => ILocked b ok)) by (intros []; reflexivity).
       eapply Mc_T2; eauto.
-    + unfold M, pcs in *; simpl.
-      rewrite (map_upd _ _ i_pc (inners s) k _ (fun _ => IInH b ok)) by (intros []; reflexivity).
-      eapply Mc_T3; eauto.
+    + destruct (fx && terminating s); unfold M, pcs in *; simpl.
+      * rewrite (map_upd _ _ i_pc (inners s) k _ (fun _ => IFailRet)) by (intros []; reflexivity).
+        eapply Mc_T6; eauto.
+      * rewrite (map_upd _ _ i_pc (inners s) k _ (fun _ => IInH b ok)) by (intros []; reflexivity).
+        eapply Mc_T3; eauto.
     + unfold M, pcs in *; simpl.
       rewrite (map_upd _ _ i_pc (inners s) k _ (fun _ => IUnl b ok)) by (intros []; reflexivity).
       eapply Mc_T4; eauto.
@@ -187,3 +207,4 @@ Proof.
   rewrite H2. unfold hcount. destruct (hholder s); [|lia].
   destruct (nth_error (pcs s) n0) as [p|]; [destruct (inh p)|]; lia.
 Qed.
+End Fx.
